@@ -75,6 +75,10 @@ func newInterpreter(p *Program, solverArgv []string, timeoutMs int) *interpreter
 	i.errorMethods = methodSet{}
 	i.solver = newSolver(i.tt, solverArgv, timeoutMs)
 	i.solver.fallbackArgv = FallbackSolver
+	if v := os.Getenv("GOSX_FALLBACK"); v != "" {
+		// testing aid: replace the first fallback (e.g. by /bin/false to force the third stage)
+		i.solver.fallbackArgv = strings.Fields(v)
+	}
 	i.path = &pathState{nondetSeq: map[string]int{}, held: map[*value]int{}, reached: map[string]bool{}}
 	return i
 }
